@@ -382,3 +382,45 @@ def k1w(ctx):
 
 
 RULES.append(k1w)
+
+
+@rule("K7", cfgs=EXPL, doc="the leader union hands every callee a proof oriented like the operands it passes: (l, r, proof) or (r, l, symmetry(proof))")
+def k7(ctx):
+    crate = ctx.lib()
+    n = 0
+    for lid in C.need("leader union", C.leader_union_functions(crate)):
+        b = crate.bodies[lid]
+        # parameters: two invocations and the proof  `first = second`
+        inv = [b.var_names.get(l) for l in range(1, b.argc + 1) if "types::AppliedId" in b.local_ty(l)]
+        prf = [b.var_names.get(l) for l in range(1, b.argc + 1) if "ProvenEq" in b.local_ty(l) or "proof" in b.local_ty(l).lower()]
+        if len(inv) != 2 or len(prf) != 1:
+            raise mir.AnchorMissing("leader union signature (two invocations and a proof)", "%s has %s / %s" % (C.short(lid), inv, prf))
+        A, B, P = inv[0], inv[1], prf[0]
+        for c in b.calls:
+            if b.blocks[c.bb]["cleanup"] or not c.callee or c.callee.target not in crate.bodies:
+                continue
+            roles = [strip_role(b.role_of_operand(a)) for a in c.args]
+            pos = {}
+            for i, r in enumerate(roles):
+                if r == ("param", A):
+                    pos.setdefault("A", i)
+                elif r == ("param", B):
+                    pos.setdefault("B", i)
+            pidx = [i for i, a in enumerate(c.args) if mir.op_place(a) is not None and ("ProvenEq" in b.local_ty(mir.op_place(a)["l"]))]
+            if not pos or not pidx:
+                continue
+            pr = b.role_of_operand(c.args[pidx[0]])
+            if not role_mentions_param(pr, P):
+                continue
+            flipped = role_mentions_call(pr, "prove_symmetry")
+            first = min(pos.items(), key=lambda kv: kv[1])[0]      # which operand comes first in the call
+            n += 1
+            want_flip = first == "B"
+            ctx.check(flipped == want_flip, "proof-orientation:%s:%s-first" % (c.callee.name, first),
+                      "%s(%s first) gets the proof %s" % (c.callee.name, A if first == "A" else B, "flipped with prove_symmetry" if want_flip else "as it is"),
+                      "%s calls %s with `%s` as the first operand but hands it the proof %s: the callee expects a proof whose left side is its first operand (%s = ..), so the explanation it records proves the converse equation" % (
+                          C.short(lid), c.callee.name, A if first == "A" else B, "flipped" if flipped else "unflipped", A if first == "A" else B), where_of(b, c.bb))
+    ctx.floor("calls of the leader union that pass an operand and the proof on", n, 4)
+
+
+RULES.append(k7)
